@@ -384,7 +384,7 @@ fn case() -> impl Strategy<Value = Case> {
 fn run(ctx: &Ctx) -> Report {
     let mut rep = Report::new(RULE);
     rep.assume("`mlar` is the binary built from the tree; tar archives are parsed with the tar crate, sizes formatted with the humansize crate (DECIMAL), as the statement names them");
-    if !Path::new(cli::MLAR).exists() {
+    if !Path::new(&cli::mlar_path()).exists() {
         rep.inconclusive = Some("mlar binary missing".into());
         return rep;
     }
